@@ -184,7 +184,15 @@ def step (st : St) (op impl : String) : St × StepOut :=
         let sendfail := w.stopped && needsFactory o
         let w' := w.stepOp o t0 tq te
         let noblock := (match o with | .block => true | _ => false) && !w'.blocked
-        let m := render w' n ++ (if sendfail then " sendfail" else "") ++ (if noblock then " noblock" else "")
+        let wAt := W.advanceTo t0 (advanceFuel w t0) w
+        let nogate : Bool := match o with
+          | .finish aid _ => !((wAt.env.getActor aid).any fun a => a.alive && a.running.isSome)
+          | .release _ => !wAt.blocked
+          | _ => false
+        let nochild : Bool := match o with
+          | .kill aid => !(!wAt.stopped && (wAt.env.getActor aid).any (·.alive))
+          | _ => false
+        let m := render w' n ++ (if sendfail then " sendfail" else "") ++ (if noblock then " noblock" else "") ++ (if nogate then " nogate" else "") ++ (if nochild then " nochild" else "")
         let nt := (w'.env.log.drop n).any fun
           | .discard .. => true | .build .. => true | .lost .. => true | .hook _ => true | _ => false
         let st := { st with w := some w' }
